@@ -98,7 +98,13 @@ where
         assert!(mtu > 4);
         let size = mtu - 4;
         let len = buf.remaining();
-        let total = div_ceil(len, size) as u8;
+        let total = div_ceil(len, size);
+        let mut buf = buf;
+        if total > u8::MAX as usize {
+            // can not be described by the one byte fragment count: drop it rather than send garbage
+            buf.advance(len);
+        }
+        let total = total as u8;
         MakeFragments {
             buf,
             mtu,
@@ -131,31 +137,37 @@ impl<T: Buf> Iterator for MakeFragments<T> {
 }
 
 struct ReassembleQueue {
-    bitmap: u128,
-    fragments: Vec<Bytes>,
+    missing: usize,
+    fragments: Vec<Option<Bytes>>,
 }
 
 impl ReassembleQueue {
     fn new(total: u8, seq: u8, buf: Bytes) -> Self {
         let total = total as usize;
         let this = seq as usize;
-        let bitmap = !0u128 << total | 1 << this;
-        let mut fragments = vec![Bytes::new(); total];
-        fragments[this] = buf;
-        Self { bitmap, fragments }
+        let mut fragments = vec![None; total];
+        fragments[this] = Some(buf);
+        Self {
+            missing: total - 1,
+            fragments,
+        }
     }
     fn add_fragment(&mut self, seq: u8, buf: Bytes) -> bool {
         let this = seq as usize;
-        if self.bitmap & (1 << this) == 0 {
-            self.bitmap |= 1 << this;
-            self.fragments[this] = buf;
-            return !self.bitmap == 0;
+        match self.fragments.get_mut(this) {
+            Some(slot) if slot.is_none() => {
+                *slot = Some(buf);
+                self.missing -= 1;
+                self.missing == 0
+            }
+            // duplicate, or beyond the announced total
+            _ => false,
         }
-        false
     }
     fn assemble(&self) -> BytesMut {
-        let mut buf = BytesMut::with_capacity(self.fragments.len() * self.fragments[0].len());
-        for fragment in self.fragments.iter() {
+        let len = self.fragments.iter().flatten().map(Bytes::len).sum();
+        let mut buf = BytesMut::with_capacity(len);
+        for fragment in self.fragments.iter().flatten() {
             buf.extend(fragment)
         }
         buf
